@@ -313,19 +313,16 @@ def judge(exp, got_kind, got_val, called):
     return None
 
 
-def tags_for(probe, flat_raw):
-    """Structural classes used for bucketing / attribution (computed on the case, not on the failure)."""
-    t = []
-    if probe.k0:
-        t.append("posonly")
-    seen = set()
-    for k, _ in flat_raw:
-        if k is not None and is_special(k) and not is_agg(k):
-            if k in seen:
-                t.append("dupspecial")
-                break
-            seen.add(k)
-    return "+".join(t) or "-"
+def tags_for(probe, flat_raw, kind):
+    """Structural class of the *case* that is relevant for this kind of mismatch (bucketing only):
+    'posonly'    = a positional-only parameter is not filled positionally or a keyword is named like one
+                   (only for calls Python accepts but the library rejects / binds differently),
+    'dupspecial' = a non-identifier / Python-keyword key is given twice (only for calls the library accepts)."""
+    if kind in ("lib-rejects", "binding") and d1_predicate(probe, flat_raw):
+        return "posonly"
+    if kind == "lib-accepts" and d2_predicate(probe, flat_raw):
+        return "dupspecial"
+    return "-"
 
 
 # ---------------------------------------------------------------------------
@@ -494,8 +491,7 @@ class SigRunner:
             self._c("has_aggregate_key")
         nontrivial = p.kinds >= 2 and (exp.used_default or exp.dup or any_special or bool(n_agg))
         if fails:
-            tg = tags_for(p, flat_raw)
-            fails = [(layer, path, kind + "|" + tg, text) for layer, path, kind, text in fails]
+            fails = [(layer, path, kind + "|" + tags_for(p, flat_raw, kind), text) for layer, path, kind, text in fails]
         return fails, nontrivial
 
     def _val_code(self, params, extras):
@@ -740,7 +736,6 @@ def run_e2e(case):
         return [], info
     exp = python_says(p, flat)
     info["exp"] = exp
-    info["tags"] = tags_for(p, flat_raw)
     info["special"] = any(k is not None and is_special(k) and not is_agg(k) for k, _ in flat_raw)
     info["agg"] = any(k is not None and is_agg(k) for k, _ in flat_raw)
     info["nontrivial"] = p.kinds >= 2 and (exp.used_default or exp.dup or info["special"] or info["agg"])
@@ -795,7 +790,7 @@ def run_e2e(case):
     del REC[:]
     if j:
         text = "[e2e/%s/%s] %s  template %s  context %r  (flattened: %s): %s" % (case["style"], case["path"], p.decl, src, ctxd, fmt_call(flat_raw), j[1])
-        fails.append((text, j[0] + "|" + info["tags"]))
+        fails.append((text, j[0] + "|" + tags_for(p, flat_raw, j[0])))
     return fails, info
 
 
@@ -919,12 +914,12 @@ def plan(tier, seed, scale=1.0):
     specs = []
     n = max(16, int(b["e2e_examples"] * scale))
     n_e2e = 16
-    focus = ["all", "noposonly", "clean", "clean"]
+    focus = ["all", "noposonly", "all", "clean"]
     for sh in range(n_e2e):
-        specs.append({"kind": "e2e", "n": n // n_e2e, "seed": derive_seed(seed, "e2e", sh), "focus": focus[sh % 4], "N": b["N"]})
-    for g in groups:
+        specs.append({"kind": "e2e", "n": n // n_e2e, "seed": derive_seed(seed, "e2e", sh), "focus": focus[sh % 4], "N": b["N"], "sample": sh % 4 == 1})
+    for k, g in enumerate(groups):
         if g:
-            specs.append({"kind": "enum", "sigs": g, "L": b["L"]})
+            specs.append({"kind": "enum", "sigs": g, "L": b["L"], "sample": k % 12 == 0})
     specs.append({"kind": "builtin", "L": b["L"]})
     return specs
 
@@ -962,7 +957,7 @@ def run_shard(spec):
                     if nt:
                         if ln < 5:
                             nt_add((si << 40) | seqno)
-                            if not col.nt_samples and seqno % 997 == 0 and ln >= 3:
+                            if spec.get("sample") and not col.nt_samples and seqno % 997 == 0 and ln >= 3:
                                 col.nt_samples.append({"decl": p.decl, "call": fmt_call([(p.keys[s], i) for i, s in enumerate(seq)])})
                         else:
                             n_nt5 += 1
@@ -1033,7 +1028,7 @@ def run_shard(spec):
                 labels.append("e2e_sig_posonly")
             nt = info["nontrivial"]
             sample = None
-            if nt and not col.nt_samples and len(case["items"]) >= 3:
+            if spec.get("sample") and nt and exp.accept and not col.nt_samples and len(case["items"]) >= 3 and "e2e_has_spread" in labels:
                 sample = {"decl": probe_for(case["sig"]).decl, "template": info["src"], "context": flatten_items(case["items"])[2], "style": case["style"], "path": case["path"]}
             col.case(case if nt else None, nt, sample=sample, labels=labels)
             return fails
